@@ -84,6 +84,10 @@ def requester_events(run, conn=None, client=None):
                 evs.append("ExecDeliver %d" % nid(a[0]))
             elif p == "resp.deleted":
                 evs.append("ExecDeleted %d %s" % (nid(a[0]), "true" if a[1] else "false"))
+            elif p == "resp.abandon":
+                i = nid(a[0])
+                if i is not None:
+                    evs.append("ExecAbandon %d" % i)
             elif p == "cif.deliver":
                 evs.append("CifDeliver %d" % nid(a[0]))
             elif p == "cif.cleared":
@@ -340,6 +344,68 @@ def validate_streams(res, runs, name, family="conn"):
     return bad, items
 
 
+def forwarder_cases(run):
+    """one event list per server connection: what the forwarder registered, forwarded and closed (hook order); the value
+    itself tells which subscription produced it (token*1000+i)"""
+    ml = main_labels(run)
+    client = ml[1]
+    tok_of_req = {}
+    for e in run["events"]:
+        if e["c"] == client and e["p"] == "call.start" and (e["a"][1] or "").endswith(("Sub", "SubS")):
+            args = e["a"][4] if len(e["a"]) > 4 else []
+            i = nid(e["a"][0])
+            if args and i is not None:
+                tok_of_req[i] = (args[0], args[1] if len(args) > 1 else 0)
+    if any(n >= 1000 for _, n in tok_of_req.values()):
+        return {}          # values no longer tell their subscription (i >= 1000)
+    toks = {t for t, _ in tok_of_req.values()}
+    per = {}
+    for e in run["events"]:
+        c, p, a = e["c"], e["p"], e["a"] or []
+        if not c.startswith("ws-server#"):
+            continue
+        if p == "och.reg":
+            t = tok_of_req.get(nid(a[1]))
+            if t is not None:
+                per.setdefault(c, []).append("CReg %d %d" % (t[0], nid(a[0])))
+        elif p == "och.val.v":
+            v = ival(a[1])
+            if v is None:
+                continue
+            tok = v // 1000
+            if tok in toks and c in per:
+                per[c].append("CVal %d %d" % (tok, nid(a[0])))
+        elif p == "och.close" and c in per:
+            per[c].append("CCloseTag %d" % nid(a[0]))
+    return per
+
+
+FHEADER = "From Coq Require Import List NArith Bool.\nImport ListNotations.\nFrom JR Require Import Forwarder AuthCases ForwarderCases.\nOpen Scope N_scope.\n"
+
+
+def validate_forwarder(res, runs, name):
+    """replays the forwarder events of every server connection through Forwarder.step (the code's swap-remove on both
+    slices): every value must have gone out under the tag the model computes. Returns (bad, n_cases, n_events)"""
+    import re
+    items = []
+    for r in runs:
+        for conn, evs in forwarder_cases(r).items():
+            if any(e.startswith("CVal") for e in evs):
+                items.append((r, conn, evs))
+    if not items:
+        return [], 0, 0
+    src = FHEADER + "Definition cases : list (list fcev) := [\n%s\n].\nDefinition D := Eval vm_compute in map fcase_diag cases.\nPrint D.\n" % ";\n".join(
+        "[" + "; ".join(e) + "]" for _, _, e in items)
+    rc, out = vlib.run_cases("cases_%sf" % name, src)
+    m = re.search(r"D\s*=\s*(.*?)\n\s*:\s", out, flags=re.S) if rc == 0 else None
+    pairs = re.findall(r"\(\s*(\d+)(?:%N)?,\s*(\d+)(?:%N)?\s*\)", m.group(1)) if m else None
+    if pairs is None or len(pairs) != len(items):
+        res.mismatches.append({"family": "conn/forwarder", "error": "forwarder cases did not evaluate", "log": out[-1500:]})
+        return [], 0, 0
+    bad = [(r, conn, int(i), evs) for (d, i), (r, conn, evs) in zip(pairs, items) if int(d) != 0]
+    return bad, len(items), sum(len(e) for _, _, e in items)
+
+
 def reverse_labels(run):
     """(server-side wsConn acting as requester, its reverse client object) for single-client reverse runs"""
     import collections
@@ -389,11 +455,15 @@ def keepalive_case(run):
             aevs.append("ConnUp")
         elif p == "reader.err":
             break                     # the first reader error ends the timed trace of this connection
-    return "{| kc_T := %d; kc_events := [%s]; kc_expect_fired := %s; kc_aevents := [%s]; kc_armed := [%s] |}" % (
-        T, "; ".join(kevs), "true" if silent else "false", "; ".join(aevs), "; ".join(str(x) for x in armed))
+    P = int(run["params"]["ping_ms"]) * 1000000
+    opts = ["OPing %d" % P, "OTimeout %d" % T]
+    if run["params"].get("timeout_option_first"):
+        opts.reverse()
+    return "{| kc_opts := [%s]; kc_events := [%s]; kc_expect_fired := %s; kc_aevents := [%s]; kc_armed := [%s] |}" % (
+        "; ".join(opts), "; ".join(kevs), "true" if silent else "false", "; ".join(aevs), "; ".join(str(x) for x in armed))
 
 
-KHEADER = "From Coq Require Import List ZArith NArith Bool.\nImport ListNotations.\nFrom JR Require Import Keepalive AuthCases KeepaliveCases.\nOpen Scope Z_scope.\n"
+KHEADER = "From Coq Require Import List ZArith NArith Bool.\nImport ListNotations.\nFrom JR Require Import Keepalive AuthCases Options KeepaliveCases.\nOpen Scope Z_scope.\n"
 
 
 def validate_keepalive(res, runs, name):
